@@ -21,7 +21,7 @@ RULE = ('stream: sensor histories as in C03 (random / canonical / mixed rows, N 
         'and (MARG or non-default parameters); for isolation >= 3 switches between A and B; distinct = case hash.')
 ASSUMPTIONS = ['the initial attitude of the streaming run is the first row of the batch run (removes any dependence on constructor initialisation)',
                'FKF and Complementary offer no per-sample update method: only their repeatability is checked']
-REQUIRED_LABELS = ['stream:arch=MARG', 'stream:arch=IMU', 'stream:params=default', 'stream:params=custom', 'isolation:switches>=3']
+REQUIRED_LABELS = ['isolation:ukf_instances_differ_in_beta_only', 'stream:arch=MARG', 'stream:arch=IMU', 'stream:params=default', 'stream:params=custom', 'isolation:switches>=3']
 
 
 def _stream_case(tier):
@@ -106,6 +106,9 @@ def _iso_case(tier):
         'histA': history_strategy(20), 'histB': history_strategy(20),
         'frame': st.sampled_from(['NED', 'ENU']), 'dip': gen.fl(-80.0, 80.0), 'np_seed': st.integers(0, 2**31-1),
         'share_params': st.booleans(),
+        # UKF: the second instance differs from the first in beta only (a documented constructor parameter that the shared filter
+        # table does not vary): whatever two instances with equal alpha and kappa may share, it is not the covariance weights
+        'ukf_beta': st.one_of(st.none(), gen.fl(0.0, 4.0)),
         'schedule': st.lists(st.sampled_from(['A', 'B', 'A', 'B', 'rebuild_A', 'batch_again']), min_size=2, max_size=40)}))
 
 
@@ -142,6 +145,9 @@ def eval_isolation(case, ctx):
     dip = float(case['dip'])
     PA = F.revive_params(case['PA'])
     PB = PA if case.get('share_params', False) else F.revive_params(case['PB'])       # the same settings objects for both instances
+    if spec.name == 'UKF' and case.get('ukf_beta') is not None:
+        PB = dict(PA, beta=float(case['ukf_beta']))
+        ctx.label('ukf_instances_differ_in_beta_only')
     hA, hB = make_history(case['histA']), make_history(case['histB'])
     tag = F.spec_key(spec)
     sched = list(case['schedule'])
